@@ -27,6 +27,8 @@ def run(ctx):
     C.check_tag_tables(ctx, P)
     C.check_serde_with_pairs(ctx, P)
     C.check_endianness(ctx, P)
+    C.check_endian_delegation(ctx, P)
+    C.check_reader_totality(ctx, P)
     check_handwritten_serde(ctx, P)
     check_enum_key_wrapper(ctx, P)
     ctx.assume("serde_bare, hex and the backend's point/scalar codecs are injective and mutually inverse (dependency contract)")
